@@ -259,6 +259,11 @@ def solve_minor_model(
             assert len(present_muts) < 2
             if len(present_muts) == 1:
                 constraints[ref_m] += VA[a] - VKEEP[a][present_muts[0]][1]
+                # neither does the copy show the reference base if it drops its own
+                # mutation and gains another one here (multi-allelic sites)
+                for m in VNEW[a]:
+                    if m.pos == pos and m[1][:3] != "ins":
+                        constraints[ref_m] -= VNEW[a][m][1]
             else:
                 constraints[ref_m] += VA[a]
                 muts = [m for m in VNEW[a] if m.pos == pos and m[1][:3] != "ins"]
